@@ -7,7 +7,7 @@ import "pgregory.net/rapid"
 // option combinations and dangling dependencies all occur.
 func GenLooseReg(t *rapid.T, id int, hostile bool) Reg {
 	types := []int{0, 1, NumD, NumD + 1} // D0 D1 N0 N1
-	keys := []string{"", "", "a", "a "} // ("a" and "a " are two names)
+	keys := []string{"", "", "a", "a "}  // ("a" and "a " are two names)
 	groups := []string{"", "", "g", "h"}
 	group := func() string { return rapid.SampledFrom([]string{"g", "g", "h", " g"}).Draw(t, "group") } // one element type occurs in two groups
 	r := Reg{ID: id, Life: rapid.IntRange(0, 2).Draw(t, "life")}
@@ -86,6 +86,9 @@ func GenLooseReg(t *rapid.T, id int, hostile bool) Reg {
 	r.HasErr = r.Form != FormInstance && rapid.IntRange(0, 3).Draw(t, "err") == 0
 	if hostile && rapid.IntRange(0, 7).Draw(t, "badopt") == 0 {
 		r.BadOpt = rapid.IntRange(1, 3).Draw(t, "badoptkind")
+	}
+	if hostile && r.Form == FormVoid && r.BadOpt == 0 && rapid.IntRange(0, 3).Draw(t, "asAnyOnVoid") == 0 {
+		r.BadOpt = BadOptAsAnyVoid
 	}
 	return r
 }
